@@ -25,6 +25,9 @@ func checkC15(c *Ctx, e *Env) {
 	c.Assumptions = []string{"A6", "base58.CheckEncode/CheckDecode are mutually inverse"}
 	m := e.Model("x/data")
 	p := m.P
+	importObligations(c, e, checkC17, "C17", "C15.REPORT", "queries#report-the-record's-own-iri", "what the x/data queries report for a content hash — its IRI, its anchor, its attestors, its resolvers — is read from the record of that hash in each listed element: an IRI taken from another row would present one content hash's data under another's", func(o *Oblig) bool {
+		return o.Rule == "C17.SHAPE" && strings.HasPrefix(o.Construct, "data.")
+	})
 	fns := m.subjectFns(false)
 	var encoders []*ssa.Function
 	var parser *ssa.Function
@@ -74,6 +77,52 @@ func checkC15(c *Ctx, e *Env) {
 		return
 	}
 	dec := decoderSummary(c, p, parser)
+	// the parser bounds no part of its textual input by a length: that no encoder output exceeds such a
+	// bound is a numeric fact about base58 expansion and extension lengths which the byte-layout comparison
+	// does not decide (a bound applied to the wrong part rejects the IRIs of the longest valid hashes)
+	{
+		g := NewGraph(p)
+		nLen := 0
+		for _, f := range sortedFns(g.Closure([]*ssa.Function{parser})) {
+			if fnPkgPath(f) != fnPkgPath(parser) || isCanaryFn(f) {
+				continue
+			}
+			for _, b := range f.Blocks {
+				for _, in := range b.Instrs {
+					bo, ok := in.(*ssa.BinOp)
+					if !ok {
+						continue
+					}
+					switch bo.Op {
+					case token.GTR, token.GEQ, token.LSS, token.LEQ:
+					default:
+						continue
+					}
+					for _, pair := range [][2]ssa.Value{{bo.X, bo.Y}, {bo.Y, bo.X}} {
+						call, isCall := pair[0].(*ssa.Call)
+						if !isCall {
+							continue
+						}
+						bi, isB := call.Call.Value.(*ssa.Builtin)
+						if !isB || bi.Name() != "len" || len(call.Call.Args) != 1 {
+							continue
+						}
+						if bt, isBasic := call.Call.Args[0].Type().Underlying().(*types.Basic); !isBasic || bt.Info()&types.IsString == 0 {
+							continue
+						}
+						if cv, isC := constInt(pair[1]); !isC || cv < 8 {
+							continue
+						}
+						nLen++
+						c.Undecide("C15.CODEC", "parser#length-bound:"+funcKey(f), p.Pos(bo.Pos()), "the IRI parser compares the length of a part of its input with a constant: whether every IRI the encoders produce stays within it (base58 expansion of up to 73 bytes, plus separator and extension) is not decided by the layout comparison")
+					}
+				}
+			}
+		}
+		if nLen == 0 {
+			c.Hold("C15.CODEC", "parser#no-length-bound", p.Pos(parser.Pos()), "the parser rejects no input by the length of a textual part (only by prefix, separator, checksum, version and field contents)", nil)
+		}
+	}
 	encByPrefix := map[int64]*encLayout{}
 	for _, fn := range encoders {
 		lay := encoderSummary(c, p, fn)
